@@ -5,6 +5,8 @@ import struct
 
 import vlib
 from props import headers_common as hc
+from props import c05_framing
+from props import c05_http
 
 HARNESS_BINS = ["vh", "vh_c05"]
 
@@ -215,7 +217,13 @@ def run(ctx, br):
     accepted = sum(1 for r in resps if r.get("code", 0) == 0)
     distinct = len({(op, b) for (op, b), r in zip(meta, resps) if 0 < r.get("code", 0) < 100} |
                    {(rx, b) for (rx, b) in c5meta})
+    framing = c05_framing.run(ctx)
+    http = c05_http.run(ctx)
     ctx.assumptions += [
+        "framing layer: a Read on the connection returns at least one byte or an error; the connection reports "
+        "errors as TTransportException (as TSocket does); bufio.Reader as in Go 1.23 (transcribed)",
+        "HTTP: net/http is outside the model (it starts from status, body as read, body-read failure); "
+        "encoding/base64 StdEncoding is transcribed and compared with the implementation on every run",
         "messages shorter than 2^31 bytes",
         "Apache Thrift protocol readers and generated struct readers under the Frugal header are assumed graceful "
         "(parameter thrift_layer of the theorems); they are exercised here only through the streams",
@@ -223,17 +231,19 @@ def run(ctx, br):
         "issue, not modelled",
     ]
     return {
-        "evaluations": len(meta) + len(c5meta),
-        "distinct_nontrivial": distinct,
+        "evaluations": len(meta) + len(c5meta) + framing["evaluations"] + http["evaluations"],
+        "distinct_nontrivial": distinct + framing["distinct"] + http["distinct"],
+        "framing": framing,
+        "http_io": http,
         "rule": "three streams per entry point: boundary values at every size-field position of 0..3 pairs; all byte strings "
                 "of length <= %d over {00,01,04,05,7f,80,ff}; mutations (truncate, bit flips, splice) of valid frames; "
                 "plus the inputs that crashed the pinned tree. Entry points: readHeader, getHeadersFromFrame, "
                 "ReadRequestHeader, ExecuteFrame, NATS client inbox, NATS server, NATS scope subscriber, STOMP subscriber, "
                 "HTTP handler (base64 and raw bodies), adapter read loop over a pipe. Non-trivial = rejected input or "
                 "end-to-end delivery; distinct by (entry, bytes)" % (4 if quick else 6),
-        "traces_validated_against_impl": sum(1 for v in v1 + v2 if v >= 0),
-        "judge_mismatches": mism,
-        "oracle_failures": viol,
+        "traces_validated_against_impl": sum(1 for v in v1 + v2 if v >= 0) + framing["validated"] + http["validated"],
+        "judge_mismatches": mism + framing["mismatches"] + http["mismatches"],
+        "oracle_failures": viol + framing["oracle_failures"] + http["oracle_failures"],
         "model_branch_tags": len(tags),
         "input_histogram": hist,
         "parser_inputs_rejected": rejected,
